@@ -31,4 +31,8 @@ def sumPartial (minSz size : Nat) : Nat → List Nat → PV
   | _, [] => ⟨0, 0, 0, 0⟩
   | start, l :: ls => forCopyPartial minSz start l size + sumPartial minSz size (start + l) ls
 
+/-- `u64::saturating_add` (`cap` = `u64::MAX`): how the byte sums `work` and `copy_bytes` of `add_assign` and the byte
+totals of the statistics are accumulated -/
+def satAdd (cap a b : Nat) : Nat := min (a + b) cap
+
 end Rj
